@@ -18,7 +18,7 @@ import (
 // ---- C10: the static shortcut is unobservable (engine B over histories) ----
 
 var c10Routes = []string{"/s", "/s/", "/s/t", "/s/?t", "/{p}", "/s/{p}", "/{m: **}", "/q/?r", "/", "/{p}/t"}
-var c10RegMethods = []string{"GET", "POST", "*"}
+var c10RegMethods = []string{"GET", "POST", "*", "GET,POST"}
 var c10HdrSets = [][]string{{}, {"X-K", "v"}}
 var c10Paths = []string{"/s", "//s", "/s/", "/s//", "/s/t", "/s/?t", "/q/?r", "/q", "/q/r", "/%73", "s", "", "/", "/s/t/", "/q/", "/{p}/t", "/{p}", "/s/{p}", "/{m: **}", "/x/t"}
 var c10ReqHdrs = []map[string]string{{}, {"X-K": "v"}}
@@ -87,14 +87,22 @@ func c10Apply(p *route.Parser, ops []c10Op) (w *c10World, ok bool, bad string) {
 			var handle *flamego.Route
 			pan := func() (pv interface{}) {
 				defer func() { pv = recover() }()
-				handle = w.f.Route(op.Method, op.Route, []flamego.Handler{h})
+				if strings.Contains(op.Method, ",") {
+					handle = w.f.Routes(op.Route, op.Method, h)
+				} else {
+					handle = w.f.Route(op.Method, op.Route, []flamego.Handler{h})
+				}
 				return nil
 			}()
 			ast2, _ := p.Parse(op.Route)
 			var regLeaves []route.Leaf
 			var terr error
 			var tpan interface{}
-			for _, m := range c08MethodsOf(op.Method) {
+			regMethods := c08MethodsOf(op.Method)
+			if strings.Contains(op.Method, ",") {
+				regMethods = strings.Split(op.Method, ",")
+			}
+			for _, m := range regMethods {
 				var leaf route.Leaf
 				leaf, terr, tpan = safeAddRoute(w.trees[m], ast2)
 				if terr != nil || tpan != nil {
